@@ -14,17 +14,18 @@ RULE = ("(a) every cond-out tree built from a grammar: all subsets of 11 entry k
         "by `cond gc`, `cond gc --dry-run` and `cond gc -v`; (b) every state reachable by histories of <=3 commands over {run ok, run "
         "failing, run with failing dependency, archive+clean+restore} followed by the three gc forms; oracle = independent expectation "
         "(delete directories named <ident>.task.<positive int> that are not inside a task output directory and have no committed row; "
-        "everything else byte-identical; dry-run deletes nothing and prints exactly that set). non-trivial = tree containing at least "
+        "everything else byte-identical; dry-run deletes nothing and prints exactly that set); for the nested-package grid and the "
+        "histories, `cond gc -v` is also started from inside each directory it is about to delete. non-trivial = tree containing at least "
         "one task-like entry; distinct = distinct tree/history")
 ASSUMPTIONS = [
     "symlinked directories and look-alike parents that contain task-like children are outside the alphabet (the statement does not decide them)",
-    "gc is invoked from the project root here; other working directories are C17",
+    "gc is invoked from the project root or from a directory it deletes here; the other working directories are C17",
 ]
 CHUNK = 16
 
 # entry kinds: (id, {relpath: content|None}, rows)
 ROOT_ENTRIES = [
-    ("rec5", {"x.task.5/data": "r5"}, [("//:x", 5)]),
+    ("rec5", {"x.task.5/data": "r5", "x.task.5/copied/dep.task.3/data": "copy of a dependency's output", "x.task.5/y.task.7/f": "nested"}, [("//:x", 5)]),
     ("unrec6", {"x.task.6/data": "u6"}, []),
     ("unrec50", {"x.task.50/stdout.log": ""}, []),
     ("rec15", {"x.task.15/data": "r15"}, [("//:x", 15)]),
@@ -115,7 +116,7 @@ def items(tier):
     for mask in range(1 << nS):
         ids = [i for i in range(nS) if mask >> i & 1]
         for rootv in ([], [0, 1], [0, 1, 4, 9], list(range(nR))):
-            batch.append({"root": rootv, "sub": ids})
+            batch.append({"root": rootv, "sub": ids, "cwds": True})
             if len(batch) >= 40:
                 out.append({"kind": "trees", "trees": batch})
                 batch = []
@@ -158,7 +159,7 @@ def apply_history(history):
     return root
 
 
-def check_gc(root, label, res, viol, art):
+def check_gc(root, label, res, viol, art, cwds=False):
     co = os.path.join(root, "cond-out")
     rowset = {(r[0], r[1]) for r in (hist.rows(root) or [])}
     want = expected_deletions(co, rowset)
@@ -201,6 +202,21 @@ def check_gc(root, label, res, viol, art):
                 want_lines = sorted("Deleting " + os.path.join("cond-out", w) for w in want)
                 if sorted(lines) != want_lines:
                     viol("gc:verbose-listing", "gc -v printed %s, expected %s" % (sorted(lines), want_lines), art)
+    if cwds:
+        # the same collection started from inside each directory it is going to delete (a user reading a failed run's logs)
+        for w in want:
+            hist.restore_snapshot(snap, root)
+            res["evals"] += 1
+            r = hist.run(root, ["gc", "-v"], cwd=os.path.join("cond-out", w))
+            after = hist.data_tree(root)
+            if r.exit != 0 or r.exc is not None:
+                viol("gc:error:from-deleted-dir", "cond gc -v started in cond-out/%s exits %r %r: %s" % (w, r.exit, r.exc, r.err_text[-300:]), art)
+            left = [x for x in want if x in after]
+            rest_before = {k: v for k, v in before.items() if not any(k == x or k.startswith(x + os.sep) for x in want)}
+            if left:
+                viol("gc:not-deleted:from-deleted-dir", "cond gc -v started in cond-out/%s left %s behind" % (w, left), art)
+            elif rest_before != after:
+                viol("gc:collateral:from-deleted-dir", "cond gc -v started in cond-out/%s modified entries it must not touch" % w, art)
     return want
 
 
@@ -216,14 +232,14 @@ def run_item(item, tier):
             entries = [ROOT_ENTRIES[i] for i in t["root"]] + [SUB_ENTRIES[i] for i in t["sub"]]
             files, rows = build(entries)
             root = driver.fresh_project({"COND": ""}, name="c13", pre_tree=files, index_rows=rows)
-            want = check_gc(root, "tree", res, viol, {"kind": "tree", "tree": t})
+            want = check_gc(root, "tree", res, viol, {"kind": "tree", "tree": t}, cwds=bool(t.get("cwds")))
             if entries:
                 res["sigs"].add(explore.sig(t))
             if res["sample"] is None and len(entries) >= 4:
                 res["sample"] = {"entries": [e[0] for e in entries], "expected_deletions": want}
     else:
         root = apply_history(item["history"])
-        want = check_gc(root, "history", res, viol, {"kind": "history", "history": item["history"]})
+        want = check_gc(root, "history", res, viol, {"kind": "history", "history": item["history"]}, cwds=True)
         res["sigs"].add(explore.sig(item["history"]))
         res["sample"] = {"history": item["history"], "expected_deletions": want}
     for key, (what, art) in found.items():
